@@ -214,30 +214,38 @@ def minCands (states : List σ) (tr : Table σ ℓ) (init final : σ) : Res (Lis
 
 /-! ### `to_regex` -/
 
-/-- `_isbracket_req`-driven string assembly of `to_regex` for one pair `(q_i, q_j)`:
-the value assigned to `new_transitions[q_i][q_j]`. -/
+/-- `if self._isbracket_req(r): r = f"({r})"` (applied to `r1` and to `r3`). -/
+def bracketIfReq (r : Str) : Str := if isBracketReq r then '(' :: r ++ [')'] else r
+
+/-- The `r2` rule: `None ↦ ""`, one character `↦ r2*`, otherwise `(r2)*`. -/
+def starPart : Option Str → Str
+  | none => []
+  | some r2 => if r2.length = 1 then r2 ++ ['*'] else '(' :: r2 ++ [')', '*']
+
+/-- The `r4` rule: `None ↦ ""`, a top-level union `↦ |(r4)`, `"" ↦ ?`, otherwise `|r4`. -/
+def altPart : Option Str → Str
+  | none => []
+  | some r4 =>
+    if isBracketReq r4 then '|' :: '(' :: r4 ++ [')']
+    else if r4 = [] then ['?']
+    else '|' :: r4
+
+/-- String assembly of `to_regex` for one pair `(q_i, q_j)`: the value assigned to
+`new_transitions[q_i][q_j]` (`r1 = [q_i][q_rip]`, `r2 = [q_rip][q_rip]`, `r3 = [q_rip][q_j]`,
+`r4 = [q_i][q_j]`). -/
 def ripLabel (r1 r2 r3 r4 : Option Str) : Option Str :=
   match r1, r3 with
   | some r1, some r3 =>
-    let r1 : Str := if isBracketReq r1 then '(' :: r1 ++ [')'] else r1
-    let r2 : Str :=
-      match r2 with
-      | none => []
-      | some r2 => if r2.length = 1 then r2 ++ ['*'] else '(' :: r2 ++ [')', '*']
-    let r3 : Str := if isBracketReq r3 then '(' :: r3 ++ [')'] else r3
-    let r4 : Str :=
-      match r4 with
-      | none => []
-      | some r4 =>
-        if isBracketReq r4 then '|' :: '(' :: r4 ++ [')']
-        else if r4 = [] then ['?']
-        else '|' :: r4
+    let a := bracketIfReq r1
+    let b := starPart r2
+    let c := bracketIfReq r3
+    let d := altPart r4
     -- fix 75cecc0: an empty concatenation next to a union/option is written "()"
-    let r1 : Str := if r4 ≠ [] ∧ r1 ++ r2 ++ r3 = [] then ['(', ')'] else r1
-    if r4 = ['?'] ∧ r1.length + r2.length + r3.length > 1 then
-      some ('(' :: r1 ++ r2 ++ r3 ++ ')' :: r4)
+    let a : Str := if d ≠ [] ∧ a ++ b ++ c = [] then ['(', ')'] else a
+    if d = ['?'] ∧ a.length + b.length + c.length > 1 then
+      some ('(' :: a ++ b ++ c ++ ')' :: d)
     else
-      some (r1 ++ r2 ++ r3 ++ r4)
+      some (a ++ b ++ c ++ d)
   | _, _ => r4
 
 /-- `new_transitions[p][q]`. -/
